@@ -19,6 +19,8 @@ RULE = ('Hypothesis draws the state dimension d (1..3), snapshot count m (under-
         'explicitly built transformed data matrix: Xi_mat == (y pinv(Psi, rcond))^T; kernel variant z G == y pinv(Psi) Psi; ARR '
         'per-output residual ||Xi^T Psi - y|| non-increasing in the sweep count (slack 1e-7 ||y||), ranks of the guess kept, guess '
         'bit-identical. Non-trivial: duplicated snapshot, under-determined system, add_one = False, d = 1 or several outputs.')
+RULE += (' ' + 'Added classes: complex right-hand sides (direct MANDy variants and ARR); the ARR guess is compared bit by bit.')
+
 ASSUMPTIONS = [
     'oracle: numpy.linalg.pinv / explicit loops; the transformed data matrix is built by the harness (c15.psi_ref)',
     'thresholds lie below the smallest relevant singular-value ratio: cases with a singular-value ratio of an unfolding of Psi in '
@@ -240,7 +242,7 @@ def arr_case(draw):
     return {'d': d, 'm': draw(st.sampled_from([3, 5, 8, 12])) if not illc else draw(st.sampled_from([30, 60])), 'phi': phi, 'ranks': ranks,
             'seed': draw(gen.SEED), 'dy': draw(st.integers(1, 2)), 'illcond': illc, 'x_scale_exp': xscale,
             'repeats': draw(st.integers(1, 4)) if not illc else draw(st.sampled_from([2, 3, 4])), 'exact': draw(st.booleans()) and not illc,
-            'data_form': draw(c15.DATA_FORM), 'y_form': draw(Y_FORM)}
+            'data_form': draw(c15.DATA_FORM), 'y_form': draw(st.one_of(Y_FORM, st.sampled_from(['float', 'float', 'complex'])))}
 
 
 def body_arr(c):
